@@ -237,7 +237,8 @@ def _helper_rem_job(lit: LineIterator) -> dict:
     """Load job specifications from Q-Chem output file format."""
     data_rem = {}
     for line in lit:
-        words = line.strip().lower().split(maxsplit=1)
+        # Format of a line: variable [=] value [comment]
+        words = line.strip().lower().replace("=", " ").split()
         if words[0] == "$end":
             break
         # parse job type section; some sections might not be available
